@@ -4,6 +4,7 @@ import (
 	"go/types"
 	"fmt"
 	"go/token"
+	"net/textproto"
 	"sort"
 	"strings"
 
@@ -3557,4 +3558,770 @@ func extraC14ProfileDecodeFresh(c *Ctx, r *Report) {
 		Old: "	var config domain.ProfileConfig\n	if err := yaml.Unmarshal(data, &config); err != nil {",
 		New: "	config := sharedProfileTemplate\n	if err := yaml.Unmarshal(data, &config); err != nil {",
 		Edits: []Edit{{"internal/adapter/registry/profile/loader.go", "func needsCustomParser(name string) bool {", "var sharedProfileTemplate = func() domain.ProfileConfig {\n	var d domain.ProfileConfig\n	d.API.AnthropicSupport = &domain.AnthropicSupportConfig{MessagesPath: \"/v1/messages\"}\n	return d\n}()\n\nfunc needsCustomParser(name string) bool {"}}})
+}
+
+// ---------- C15-R8: every existing line of Via / X-Forwarded-For is folded into the forwarded value ----------
+func init() { registerExtra("C15", extraC15AllLinesFolded) }
+
+func extraC15AllLinesFolded(c *Ctx, r *Report) {
+	r.Rule("C15-R8", "in the proxy packages, the lines returned by Header.Values(Via | X-Forwarded-For) are consumed completely: they go to strings.Join, or to a repo helper that joins them or walks them in a loop that is left only through its loop condition — a `break`/`return` inside that loop (on a blank line, say) drops the lines after it, i.e. existing values of the client's proxy chain", 2)
+	n := 0
+	var checkUse func(f *ssa.Function, v ssa.Value, site token.Pos, name string, depth int)
+	checkUse = func(f *ssa.Function, v ssa.Value, site token.Pos, name string, depth int) {
+		key := fmt.Sprintf("%s:lines(%s)", fname(f), name)
+		refs := v.Referrers()
+		if refs == nil {
+			return
+		}
+		loops := naturalLoops(f)
+		looped, joined := false, false
+		for _, ref := range *refs {
+			switch x := ref.(type) {
+			case *ssa.DebugRef:
+			case *ssa.IndexAddr, *ssa.Index:
+				in := ref
+				for h, blocks := range loops {
+					if !blocks[in.Block()] {
+						continue
+					}
+					looped = true
+					for b := range blocks {
+						for _, s := range b.Succs {
+							if !blocks[s] && b != h {
+								n++
+								pos := lastInstr(b).Pos()
+								if !pos.IsValid() {
+									pos = in.Pos()
+								}
+								r.Bad("C15-R8", key, pos, "the loop over the existing "+name+" lines can be left before the last line (an exit other than the loop condition): the lines after that point are dropped from the value sent upstream")
+								return
+							}
+						}
+					}
+				}
+			case *ssa.Range:
+				_ = x
+			case ssa.CallInstruction:
+				cc := x.Common()
+				if b, ok := cc.Value.(*ssa.Builtin); ok && b.Name() == "len" {
+					continue
+				}
+				ci := describeCall(cc)
+				if ci.Pkg == "strings" && ci.Name == "Join" {
+					joined = true
+					continue
+				}
+				sc := cc.StaticCallee()
+				if sc == nil || sc.Blocks == nil || !c.inRepo(sc) || depth == 0 {
+					continue
+				}
+				for i, a := range cc.Args {
+					if a == v && i < len(sc.Params) {
+						checkUse(sc, sc.Params[i], site, name, depth-1)
+					}
+				}
+				joined = true // decided in the callee
+			}
+		}
+		if looped || joined {
+			n++
+			how := "strings.Join (or a helper decided on its own)"
+			if looped {
+				how = "a loop that is left only through its loop condition"
+			}
+			r.OK("C15-R8", key, site, "all existing lines are consumed: "+how)
+		} else if _, isParam := v.(*ssa.Parameter); isParam {
+			n++
+			r.Bad("C15-R8", key, site, "the helper that receives the existing "+name+" lines neither joins them nor walks all of them")
+		}
+	}
+	for _, f := range c.Funcs {
+		if !strings.Contains(fnPkgPath(f), "/adapter/proxy/") {
+			continue
+		}
+		eachInstr(f, func(in ssa.Instruction) {
+			_, k, _, ok := headerCall(in, "Values")
+			if !ok {
+				return
+			}
+			name, isK := constString(k)
+			if !isK || !listValuedForwarding[textproto.CanonicalMIMEHeaderKey(name)] {
+				return
+			}
+			if v, ok := in.(ssa.Value); ok {
+				checkUse(f, v, in.Pos(), textproto.CanonicalMIMEHeaderKey(name), 3)
+			}
+		})
+	}
+	if n == 0 {
+		r.Undecided("C15-R8", "forwarding-lines", token.NoPos, "no Header.Values(Via | X-Forwarded-For) in the proxy packages")
+	}
+	addMutants(Mutant{Prop: "C15", Name: "via-fold-stops-at-blank", File: "internal/adapter/proxy/core/common.go", Rule: "C15-R8",
+		Old: "	if via := strings.Join(originalReq.Header.Values(constants.HeaderVia), \", \"); via != \"\" {",
+		New: "	if via := foldLines(originalReq.Header.Values(constants.HeaderVia)); via != \"\" {",
+		Edits: []Edit{{"internal/adapter/proxy/core/common.go", "var hopByHopHeaders = []string{", "func foldLines(lines []string) string {\n	out := \"\"\n	for _, l := range lines {\n		if l == \"\" {\n			break\n		}\n		if out != \"\" {\n			out += \", \"\n		}\n		out += l\n	}\n	return out\n}\n\nvar hopByHopHeaders = []string{"}}})
+}
+
+// ---------- C15-R9: the inbound request's header map is never written ----------
+func init() { registerExtra("C15", extraC15InboundHeadersUntouched) }
+
+func extraC15InboundHeadersUntouched(c *Ctx, r *Report) {
+	r.Rule("C15-R9", "every write to the Header map of an *http.Request (Header.Set/Add/Del, h[k] = v, delete(h, k)) is made on a request the code built itself (http.NewRequest*, Request.Clone, followed through parameters to all callers): the inbound request's map is the source the proxy engines copy from — and WithContext shares it — so a Set on it replaces the whole value list of a client header (repeated values are lost) before it is forwarded", 10)
+	callers := map[*ssa.Function][]*ssa.CallCommon{}
+	for _, g := range c.Funcs {
+		eachInstr(g, func(in ssa.Instruction) {
+			if cc := getCall(in); cc != nil {
+				if sc := cc.StaticCallee(); sc != nil {
+					callers[sc] = append(callers[sc], cc)
+				}
+			}
+		})
+	}
+	// ownRequest: the *http.Request value was constructed by repo code for an outbound call
+	var ownRequest func(v ssa.Value, depth int, seen map[ssa.Value]bool) bool
+	ownRequest = func(v ssa.Value, depth int, seen map[ssa.Value]bool) bool {
+		if depth == 0 || v == nil || seen[v] {
+			return false
+		}
+		seen[v] = true
+		switch x := v.(type) {
+		case *ssa.Extract:
+			return ownRequest(x.Tuple, depth, seen)
+		case *ssa.Call:
+			ci := describeCall(&x.Call)
+			if ci.Pkg == "net/http" && (strings.HasPrefix(ci.Name, "NewRequest") || ci.Name == "Clone") {
+				return true
+			}
+			if ci.Pkg == "net/http/httptest" {
+				return true
+			}
+			return false
+		case *ssa.Phi:
+			for _, e := range x.Edges {
+				if !ownRequest(e, depth-1, seen) {
+					return false
+				}
+			}
+			return len(x.Edges) > 0
+		case *ssa.UnOp:
+			if a, ok := x.X.(*ssa.Alloc); ok && x.Op == token.MUL {
+				nst := 0
+				for _, ref := range *a.Referrers() {
+					if st, ok := ref.(*ssa.Store); ok && st.Addr == ssa.Value(a) {
+						nst++
+						if !ownRequest(st.Val, depth-1, seen) {
+							return false
+						}
+					}
+				}
+				return nst > 0
+			}
+		case *ssa.Parameter:
+			f := x.Parent()
+			if f.Parent() != nil {
+				return false
+			}
+			for i, p := range f.Params {
+				if p != x {
+					continue
+				}
+				cs := callers[f]
+				if len(cs) == 0 {
+					return false
+				}
+				for _, cc := range cs {
+					if i >= len(cc.Args) || !ownRequest(cc.Args[i], depth-1, map[ssa.Value]bool{}) {
+						return false
+					}
+				}
+				return true
+			}
+		case *ssa.FreeVar:
+			f := x.Parent()
+			for i, fv := range f.FreeVars {
+				if fv != x || f.Parent() == nil {
+					continue
+				}
+				ok := false
+				eachInstr(f.Parent(), func(in ssa.Instruction) {
+					if mc, isMC := in.(*ssa.MakeClosure); isMC && mc.Fn == f && i < len(mc.Bindings) {
+						b := mc.Bindings[i]
+						// captured by reference: the binding is the address of the variable
+						if a, isA := b.(*ssa.Alloc); isA {
+							nst := 0
+							all := true
+							for _, ref := range *a.Referrers() {
+								if st, isSt := ref.(*ssa.Store); isSt && st.Addr == ssa.Value(a) {
+									nst++
+									if !ownRequest(st.Val, depth-1, map[ssa.Value]bool{}) {
+										all = false
+									}
+								}
+							}
+							ok = nst > 0 && all
+						} else {
+							ok = ownRequest(b, depth-1, map[ssa.Value]bool{})
+						}
+					}
+				})
+				return ok
+			}
+		}
+		return false
+	}
+	n := 0
+	for _, f := range c.Funcs {
+		if !c.inRepo(f) {
+			continue
+		}
+		eachInstr(f, func(in ssa.Instruction) {
+			var hdr ssa.Value
+			what := ""
+			if h, _, name, ok := headerCall(in, "Set", "Add", "Del"); ok {
+				hdr, what = h, "Header."+name
+			} else if mu, ok := in.(*ssa.MapUpdate); ok && isNamed(mu.Map.Type(), "net/http", "Header") {
+				hdr, what = mu.Map, "map update"
+			} else if cc := getCall(in); cc != nil {
+				if b, ok := cc.Value.(*ssa.Builtin); ok && b.Name() == "delete" && isNamed(cc.Args[0].Type(), "net/http", "Header") {
+					hdr, what = cc.Args[0], "delete"
+				}
+			}
+			if hdr == nil {
+				return
+			}
+			if ct, ok := hdr.(*ssa.ChangeType); ok {
+				hdr = ct.X
+			}
+			req := headerOfRequest(hdr)
+			if req == nil {
+				return // a response writer's header map, a fresh map, …: not a request's
+			}
+			n++
+			key := fmt.Sprintf("%s:request-header-write", fname(f))
+			if ownRequest(req, 4, map[ssa.Value]bool{}) {
+				r.OK("C15-R9", key, in.Pos(), what+" on a request built by this code for the upstream call")
+			} else {
+				r.Bad("C15-R9", key, in.Pos(), what+" writes the header map of a request this code did not build (the inbound request, shared through WithContext): client headers are altered before the proxy copies them — a Set collapses a repeated header to one value")
+			}
+		})
+	}
+	if n == 0 {
+		r.Undecided("C15-R9", "request-header-writes", token.NoPos, "no write to a request's header map found")
+	}
+	addMutants(Mutant{Prop: "C15", Name: "handler-sets-request-id-on-inbound", File: "internal/app/handlers/handler_proxy.go", Rule: "C15-R9",
+		Old: "	ctx = context.WithValue(ctx, constants.ContextRequestTimeKey, stats.StartTime)\n",
+		New: "	ctx = context.WithValue(ctx, constants.ContextRequestTimeKey, stats.StartTime)\n	if stats.RequestID != \"\" && r.Header != nil {\n		r.Header.Set(\"X-Request-ID\", stats.RequestID)\n	}\n"})
+}
+
+// ---------- C16-R8: the inbound request's query string is never rewritten ----------
+func init() { registerExtra("C16", extraC16InboundQueryUntouched) }
+
+func extraC16InboundQueryUntouched(c *Ctx, r *Report) {
+	r.Rule("C16-R8", "every store to url.URL.RawQuery (and ForceQuery) goes to a URL value the code made itself — a local copy (`u := *x`), the result of ResolveReference / url.Parse / JoinPath — never through a *url.URL that is (an alias of) the inbound request's URL field: the builder copies r.URL.RawQuery verbatim (C16-R3), so a rewrite of the inbound query (masking for a log line through `logURL := r.URL`, say) is what the backend receives", 3)
+	callers := map[*ssa.Function][]*ssa.CallCommon{}
+	for _, g := range c.Funcs {
+		eachInstr(g, func(in ssa.Instruction) {
+			if cc := getCall(in); cc != nil {
+				if sc := cc.StaticCallee(); sc != nil {
+					callers[sc] = append(callers[sc], cc)
+				}
+			}
+		})
+	}
+	// ownURL: pointer to a url.URL that does not alias an *http.Request's URL
+	var ownURL func(v ssa.Value, depth int) (bool, string)
+	ownURL = func(v ssa.Value, depth int) (bool, string) {
+		if depth == 0 || v == nil {
+			return false, "not followed further"
+		}
+		switch x := v.(type) {
+		case *ssa.Alloc:
+			return true, "local URL value"
+		case *ssa.Extract:
+			return ownURL(x.Tuple, depth)
+		case *ssa.Call:
+			ci := describeCall(&x.Call)
+			if ci.Pkg == "net/url" {
+				return true, "result of url." + ci.Name
+			}
+			if sc := x.Call.StaticCallee(); sc != nil && sc.Blocks != nil && c.inRepo(sc) {
+				// a repo function returning *url.URL: every returned value must be its own
+				ok, why := true, "repo helper returning its own URL"
+				eachInstr(sc, func(in ssa.Instruction) {
+					if ret, isRet := in.(*ssa.Return); isRet {
+						for _, res := range ret.Results {
+							if isNamed(res.Type(), "net/url", "URL") {
+								if o, w := ownURL(res, depth-1); !o {
+									ok, why = false, w
+								}
+							}
+						}
+					}
+				})
+				return ok, why
+			}
+			return false, "result of an unanalysed call"
+		case *ssa.Phi:
+			for _, e := range x.Edges {
+				if o, w := ownURL(e, depth-1); !o {
+					return false, w
+				}
+			}
+			return true, "phi of own URLs"
+		case *ssa.UnOp:
+			if x.Op != token.MUL {
+				return false, "unexpected operand"
+			}
+			if fa, ok := x.X.(*ssa.FieldAddr); ok {
+				if isField(fa, "net/http", "Request", "URL") {
+					return false, "the URL field of an *http.Request"
+				}
+				return false, "a URL pointer kept in a struct field"
+			}
+			if a, ok := x.X.(*ssa.Alloc); ok {
+				n := 0
+				for _, ref := range *a.Referrers() {
+					if st, ok := ref.(*ssa.Store); ok && st.Addr == ssa.Value(a) {
+						n++
+						if o, w := ownURL(st.Val, depth-1); !o {
+							return false, w
+						}
+					}
+				}
+				return n > 0, "variable holding own URLs"
+			}
+		case *ssa.Parameter:
+			f := x.Parent()
+			for i, p := range f.Params {
+				if p != x {
+					continue
+				}
+				cs := callers[f]
+				if len(cs) == 0 {
+					return false, "a parameter of a function without static callers"
+				}
+				for _, cc := range cs {
+					if i >= len(cc.Args) {
+						return false, "parameter not matched"
+					}
+					if o, w := ownURL(cc.Args[i], depth-1); !o {
+						return false, w
+					}
+				}
+				return true, "parameter: every caller passes its own URL"
+			}
+		}
+		return false, "not recognised as a URL built here"
+	}
+	n := 0
+	for _, f := range c.Funcs {
+		if !c.inRepo(f) {
+			continue
+		}
+		eachInstr(f, func(in ssa.Instruction) {
+			st, ok := in.(*ssa.Store)
+			if !ok {
+				return
+			}
+			fa, ok := st.Addr.(*ssa.FieldAddr)
+			if !ok || !(isField(fa, "net/url", "URL", "RawQuery") || isField(fa, "net/url", "URL", "ForceQuery")) {
+				return
+			}
+			n++
+			key := fmt.Sprintf("%s:query-store", fname(f))
+			if o, w := ownURL(fa.X, 5); o {
+				r.OK("C16-R8", key, in.Pos(), "the query is stored into "+w)
+			} else {
+				r.Bad("C16-R8", key, in.Pos(), "the query string is stored through "+w+": if that is the inbound request's URL, the client's query is rewritten before the upstream URL is built from it")
+			}
+		})
+	}
+	if n == 0 {
+		r.Undecided("C16-R8", "query-stores", token.NoPos, "no store to url.URL.RawQuery found")
+	}
+	addMutants(Mutant{Prop: "C16", Name: "log-redaction-through-alias", File: "internal/app/handlers/server.go", Rule: "C16-R8",
+		Old: "	return http.HandlerFunc(func(w http.ResponseWriter, r *http.Request) {\n		a.logger.Info(\"HTTP request\",",
+		New: "	return http.HandlerFunc(func(w http.ResponseWriter, r *http.Request) {\n		if logURL := r.URL; logURL.Query().Has(\"key\") {\n			logURL.RawQuery = \"key=REDACTED\"\n		}\n		a.logger.Info(\"HTTP request\","})
+}
+
+// ---------- C16-R9: what goes on the wire is the request built from the builder's URL ----------
+func init() { registerExtra("C16", extraC16RoundTripRequest) }
+
+func extraC16RoundTripRequest(c *Ctx, r *Report) {
+	r.Rule("C16-R9", "in the proxy engines the request handed to RoundTrip / Client.Do is the one created by http.NewRequestWithContext (whose URL operand C16-R5 ties to the URL builder), possibly through parameters, WithContext or Clone, and its URL field is never reassigned on the way: a second request aimed at a URL taken from elsewhere (a backend's Location header, say) can leave the configured scheme, host and port", 2)
+	callers := map[*ssa.Function][]*ssa.CallCommon{}
+	for _, g := range c.Funcs {
+		eachInstr(g, func(in ssa.Instruction) {
+			if cc := getCall(in); cc != nil {
+				if sc := cc.StaticCallee(); sc != nil {
+					callers[sc] = append(callers[sc], cc)
+				}
+			}
+		})
+	}
+	urlReassigned := func(v ssa.Value) token.Pos {
+		refs := v.Referrers()
+		if refs == nil {
+			return token.NoPos
+		}
+		for _, ref := range *refs {
+			if fa, ok := ref.(*ssa.FieldAddr); ok && isField(fa, "net/http", "Request", "URL") {
+				for _, r2 := range *fa.Referrers() {
+					if st, ok := r2.(*ssa.Store); ok && st.Addr == ssa.Value(fa) {
+						return st.Pos()
+					}
+				}
+			}
+		}
+		return token.NoPos
+	}
+	var built func(v ssa.Value, depth int) (bool, string, token.Pos)
+	built = func(v ssa.Value, depth int) (bool, string, token.Pos) {
+		if depth == 0 || v == nil {
+			return false, "origin not followed further", token.NoPos
+		}
+		if p := urlReassigned(v); p.IsValid() {
+			return false, "its URL field is reassigned", p
+		}
+		switch x := v.(type) {
+		case *ssa.Extract:
+			return built(x.Tuple, depth)
+		case *ssa.Call:
+			ci := describeCall(&x.Call)
+			if ci.Pkg == "net/http" && ci.Name == "NewRequestWithContext" {
+				return true, "", token.NoPos
+			}
+			if ci.Pkg == "net/http" && ci.Recv == "Request" && (ci.Name == "WithContext" || ci.Name == "Clone") && len(x.Call.Args) > 0 {
+				return built(x.Call.Args[0], depth-1)
+			}
+			if sc := x.Call.StaticCallee(); sc != nil && sc.Blocks != nil && c.inRepo(sc) {
+				// a repo helper that prepares the request: every non-nil request it returns must be built that way
+				ok, why, pos := true, "", token.NoPos
+				eachInstr(sc, func(in ssa.Instruction) {
+					ret, isRet := in.(*ssa.Return)
+					if !isRet {
+						return
+					}
+					for _, res := range ret.Results {
+						if !isNamed(res.Type(), "net/http", "Request") || isNilConst(res) {
+							continue
+						}
+						if o, w, p := built(res, depth-1); !o {
+							ok, why, pos = false, w, p
+						}
+					}
+				})
+				return ok, why, pos
+			}
+			return false, "it is the result of " + ci.String(), x.Pos()
+		case *ssa.Phi:
+			for _, e := range x.Edges {
+				if isNilConst(e) {
+					continue
+				}
+				if ok, w, p := built(e, depth-1); !ok {
+					return false, w, p
+				}
+			}
+			return true, "", token.NoPos
+		case *ssa.Parameter:
+			f := x.Parent()
+			for i, p := range f.Params {
+				if p != x {
+					continue
+				}
+				cs := callers[f]
+				if len(cs) == 0 {
+					return false, "it is a parameter of a function without static callers", f.Pos()
+				}
+				for _, cc := range cs {
+					if i >= len(cc.Args) {
+						return false, "parameter not matched", f.Pos()
+					}
+					if ok, w, p2 := built(cc.Args[i], depth-1); !ok {
+						return false, w, p2
+					}
+				}
+				return true, "", token.NoPos
+			}
+		}
+		return false, "origin not recognised", v.Pos()
+	}
+	n := 0
+	for _, f := range c.Funcs {
+		if !strings.Contains(fnPkgPath(f), "/adapter/proxy/") {
+			continue
+		}
+		eachInstr(f, func(in ssa.Instruction) {
+			cc := getCall(in)
+			if cc == nil {
+				return
+			}
+			var req ssa.Value
+			if cc.IsInvoke() {
+				if cc.Method.Name() == "RoundTrip" && len(cc.Args) == 1 {
+					req = cc.Args[0]
+				}
+			} else {
+				ci := describeCall(cc)
+				if ci.Pkg == "net/http" && ((ci.Name == "RoundTrip" && len(cc.Args) == 2) || (ci.Recv == "Client" && ci.Name == "Do" && len(cc.Args) == 2)) {
+					req = cc.Args[1]
+				}
+			}
+			if req == nil || !isNamed(req.Type(), "net/http", "Request") {
+				return
+			}
+			n++
+			key := fmt.Sprintf("%s:wire-request", fname(f))
+			if ok, w, p := built(req, 4); ok {
+				r.OK("C16-R9", key, in.Pos(), "the request sent is the NewRequestWithContext result (URL from the builder), URL field untouched")
+			} else {
+				if !p.IsValid() {
+					p = in.Pos()
+				}
+				r.Bad("C16-R9", key, in.Pos(), "the request sent upstream is not the one built from the builder's URL: "+w+" ("+c.Pos(p)+")")
+			}
+		})
+	}
+	if n == 0 {
+		r.Undecided("C16-R9", "roundtrips", token.NoPos, "no RoundTrip / Client.Do in the proxy engines")
+	}
+	addMutants(Mutant{Prop: "C16", Name: "wire-request-url-from-header", File: "internal/adapter/proxy/sherpa/service_retry.go", Rule: "C16-R9",
+		Old: "	proxyReq, err := http.NewRequestWithContext(ctx, r.Method, targetURL.String(), r.Body)\n",
+		New: "	proxyReq, err := http.NewRequestWithContext(ctx, r.Method, targetURL.String(), r.Body)\n	if err == nil && r.Header.Get(\"X-Upstream-Override\") != \"\" {\n		if ou, perr := r.URL.Parse(r.Header.Get(\"X-Upstream-Override\")); perr == nil {\n			proxyReq.URL = ou\n		}\n	}\n"})
+}
+
+// ---------- C17-R9: only Olla's own health path is moved to the health bucket ----------
+func init() { registerExtra("C17", extraC17HealthFlagExact) }
+
+func extraC17HealthFlagExact(c *Ctx, r *Report) {
+	r.Rule("C17-R9", "the flag that moves a request out of the client's per-IP bucket into the separate health bucket (SecurityRequest.IsHealthCheck) is false or the result of comparing the request path for equality with a constant — never a broader predicate (suffix, prefix, contains, a helper that is not such an equality): a proxied path that merely looks like a health path would be charged to a second bucket, and one client gets both budgets", 2)
+	var exact func(v ssa.Value, depth int) (bool, string)
+	exact = func(v ssa.Value, depth int) (bool, string) {
+		if depth == 0 || v == nil {
+			return false, "not followed further"
+		}
+		switch x := v.(type) {
+		case *ssa.Const:
+			return true, "constant"
+		case *ssa.BinOp:
+			if x.Op == token.EQL {
+				_, kx := constString(x.X)
+				_, ky := constString(x.Y)
+				if kx != ky {
+					other := x.X
+					if kx {
+						other = x.Y
+					}
+					switch o := other.(type) {
+					case *ssa.Parameter, *ssa.FreeVar:
+						return true, "path == constant"
+					case *ssa.UnOp:
+						if o.Op == token.MUL {
+							return true, "path == constant"
+						}
+					}
+					return false, "an equality on a derived value (a slice, a call result), not on the whole path"
+				}
+			}
+			return false, "a comparison other than equality with a constant"
+		case *ssa.Phi:
+			for _, e := range x.Edges {
+				if ok, w := exact(e, depth-1); !ok {
+					return false, w
+				}
+			}
+			return true, "one of several exact paths"
+		case *ssa.UnOp:
+			if x.Op == token.MUL {
+				if a, ok := x.X.(*ssa.Alloc); ok {
+					for _, ref := range *a.Referrers() {
+						if st, ok := ref.(*ssa.Store); ok && st.Addr == ssa.Value(a) {
+							if ok, w := exact(st.Val, depth-1); !ok {
+								return false, w
+							}
+						}
+					}
+					return true, "variable holding exact comparisons"
+				}
+			}
+		case *ssa.Call:
+			if sc := x.Call.StaticCallee(); sc != nil && sc.Blocks != nil && c.inRepo(sc) {
+				ok, why := true, "helper returning an exact comparison"
+				eachInstr(sc, func(in ssa.Instruction) {
+					if ret, isRet := in.(*ssa.Return); isRet && len(ret.Results) == 1 {
+						if o, w := exact(ret.Results[0], depth-1); !o {
+							ok, why = false, w
+						}
+					}
+				})
+				return ok, why
+			}
+			return false, "the result of " + describeCall(&x.Call).String()
+		}
+		return false, "not an equality with a constant path"
+	}
+	n := 0
+	for _, f := range c.Funcs {
+		if !c.inRepo(f) {
+			continue
+		}
+		eachInstr(f, func(in ssa.Instruction) {
+			st, ok := in.(*ssa.Store)
+			if !ok {
+				return
+			}
+			fa, ok := st.Addr.(*ssa.FieldAddr)
+			if !ok || !isField(fa, "internal/core/ports", "SecurityRequest", "IsHealthCheck") {
+				return
+			}
+			n++
+			key := fmt.Sprintf("%s:health-flag", fname(f))
+			if ok, w := exact(st.Val, 5); ok {
+				r.OK("C17-R9", key, in.Pos(), "health flag: "+w)
+			} else {
+				r.Bad("C17-R9", key, in.Pos(), "the health-bucket flag is "+w+": proxied paths can be charged to the health bucket instead of the client's own, so one client is admitted at more than burst + rate × t")
+			}
+		})
+	}
+	if n == 0 {
+		r.Undecided("C17-R9", "health-flag-stores", token.NoPos, "no store to SecurityRequest.IsHealthCheck found")
+	}
+	addMutants(Mutant{Prop: "C17", Name: "health-flag-by-suffix", File: "internal/adapter/security/request_rate_limit.go", Rule: "C17-R9",
+		Old: "			isHealthEndpoint := r.URL.Path == constants.DefaultHealthCheckEndpoint\n",
+		New: "			isHealthEndpoint := len(r.URL.Path) >= 7 && r.URL.Path[len(r.URL.Path)-7:] == \"/health\"\n"})
+}
+
+// ---------- C17-R10: the declared body size is compared with the limit for every request ----------
+func init() { registerExtra("C17", extraC17SizeCheckUnconditional) }
+
+func extraC17SizeCheckUnconditional(c *Ctx, r *Report) {
+	r.Rule("C17-R10", "in the security package's body-size check (the function comparing SecurityRequest.BodySize with the configured maximum) every accepting return lies on the within-limit side of that comparison, or is reached only under tests of the size and the limit themselves (limit disabled, length unknown): no test of another request attribute (method, path, headers) lets a request through without the comparison — both engines forward the body of any method", 1)
+	const pp, pt = "internal/core/ports", "SecurityRequest"
+	n := 0
+	for _, f := range c.Funcs {
+		if !strings.Contains(fnPkgPath(f), "/adapter/security") {
+			continue
+		}
+		var cmp *ssa.BinOp
+		eachInstr(f, func(in ssa.Instruction) {
+			bo, ok := in.(*ssa.BinOp)
+			if !ok || cmp != nil {
+				return
+			}
+			switch bo.Op {
+			case token.GTR, token.LSS, token.GEQ, token.LEQ:
+			default:
+				return
+			}
+			bx, by := mentionsField(bo.X, pp, pt, "BodySize", 3), mentionsField(bo.Y, pp, pt, "BodySize", 3)
+			if bx == by {
+				return
+			}
+			other := bo.Y
+			if by {
+				other = bo.X
+			}
+			if _, isK := other.(*ssa.Const); isK {
+				return // BodySize <= 0 style tests are not the limit comparison
+			}
+			cmp = bo
+		})
+		if cmp == nil {
+			continue
+		}
+		// polarity of "exceeds": BodySize > max / max < BodySize
+		sizeOnX := mentionsField(cmp.X, pp, pt, "BodySize", 3)
+		exceedsWhenTrue := (sizeOnX && (cmp.Op == token.GTR || cmp.Op == token.GEQ)) || (!sizeOnX && (cmp.Op == token.LSS || cmp.Op == token.LEQ))
+		var otherAttr func(v ssa.Value, depth int) string
+		otherAttr = func(v ssa.Value, depth int) string {
+			if v == nil || depth == 0 {
+				return ""
+			}
+			switch x := v.(type) {
+			case *ssa.FieldAddr, *ssa.Field:
+				o, fld, _ := fieldOf(x)
+				if isNamed(o, pp, pt) && fld.Name() != fieldAliasOf(pp, pt, "BodySize") {
+					return "SecurityRequest." + fld.Name()
+				}
+			case *ssa.Call:
+				if b, ok := x.Call.Value.(*ssa.Builtin); !ok || b.Name() != "len" {
+					return "the result of " + describeCall(&x.Call).String()
+				}
+			}
+			if in, ok := v.(ssa.Instruction); ok {
+				for _, op := range in.Operands(nil) {
+					if *op != nil {
+						if s := otherAttr(*op, depth-1); s != "" {
+							return s
+						}
+					}
+				}
+			}
+			return ""
+		}
+		idx := 0
+		eachInstr(f, func(in ssa.Instruction) {
+			ret, ok := in.(*ssa.Return)
+			if !ok {
+				return
+			}
+			facts := normFacts(condFacts(in.Block()))
+			within, exceeds := false, false
+			for _, cf := range facts {
+				if cf.Cond == ssa.Value(cmp) {
+					if cf.True == exceedsWhenTrue {
+						exceeds = true
+					} else {
+						within = true
+					}
+				}
+			}
+			if exceeds {
+				return // the rejecting return
+			}
+			idx++
+			n++
+			key := fmt.Sprintf("%s:accept#%d", fname(f), idx)
+			_ = ret
+			if within {
+				r.OK("C17-R10", key, in.Pos(), "accepting return on the within-limit side of the size comparison")
+				return
+			}
+			// facts on each incoming edge as well (a `||` or a multi-value case reaches the return over several edges,
+			// none of which dominates it)
+			var edgeAll func(b *ssa.BasicBlock, depth int) []condFact
+			edgeAll = func(b *ssa.BasicBlock, depth int) []condFact {
+				var out []condFact
+				if depth == 0 || len(b.Preds) < 2 {
+					return out
+				}
+				for _, p := range b.Preds {
+					out = append(out, normFacts(edgeFacts(p, b))...)
+					if len(p.Instrs) == 1 {
+						out = append(out, edgeAll(p, depth-1)...)
+					}
+				}
+				return out
+			}
+			facts = append(facts, edgeAll(in.Block(), 3)...)
+			for _, cf := range facts {
+				if s := otherAttr(cf.Cond, 5); s != "" {
+					r.Bad("C17-R10", key, in.Pos(), "a request is accepted without comparing its declared body size with the limit, under a test of "+s+": a body over the limit announced on such a request is forwarded")
+					return
+				}
+			}
+			if len(facts) == 0 {
+				r.Bad("C17-R10", key, in.Pos(), "an unconditional accepting return precedes the size comparison")
+				return
+			}
+			r.OK("C17-R10", key, in.Pos(), "accepted only under tests of the size / the limit themselves (limit disabled or length unknown)")
+		})
+	}
+	if n == 0 {
+		r.Undecided("C17-R10", "size-comparison", token.NoPos, "no comparison of SecurityRequest.BodySize with a configured maximum found in the security package")
+	}
+	addMutants(Mutant{Prop: "C17", Name: "size-check-skipped-for-get", File: "internal/adapter/security/request_size_limit.go", Rule: "C17-R10",
+		Old: "	if req.BodySize > sv.maxBodySize {",
+		New: "	if req.Method == \"GET\" || req.Method == \"HEAD\" {\n		return nil\n	}\n	if req.BodySize > sv.maxBodySize {"})
 }
